@@ -384,7 +384,7 @@ def admitSegs (conv una cwnd now : U32) : List Seg → List Seg → U32 → Nat 
   | [], buf, nxt, c => ⟨[], buf, nxt, c⟩
   | s :: rest, buf, nxt, c =>
     if itimediff nxt (una + cwnd) ≥ 0 then ⟨s :: rest, buf, nxt, c⟩
-    else admitSegs conv una cwnd now rest (buf ++ [{ s with conv := conv, cmd := BitVec.ofNat 8 IKCP_CMD_PUSH, sn := nxt, resendts := now }]) (nxt + 1) (c + 1)
+    else admitSegs conv una cwnd now rest (buf ++ [{ s with conv := conv, cmd := BitVec.ofNat 8 IKCP_CMD_PUSH, sn := nxt, ts := now, resendts := now }]) (nxt + 1) (c + 1)
 
 structure XmitSt where
   f        : Fl
